@@ -351,7 +351,7 @@ func Classify(tr *Trace) *Verdict {
 	// state trace never moves backwards
 	last := -1
 	for _, e := range tr.Events {
-		if e.T == "state" && e.SessionID == tr.SessionID || (e.T == "state" && tr.SessionID == "") {
+		if e.T == "state" && e.SessionID == tr.SessionID && tr.SessionID != "" {
 			to := stateOrder[e.To]
 			if to < last {
 				v.issue("C07", "C07/state-regression", "server channel state moved from %s to %s", e.From, e.To)
@@ -365,7 +365,7 @@ func Classify(tr *Trace) *Verdict {
 	// handlers never run before establishment (C06)
 	estSeen := false
 	for _, e := range tr.Events {
-		if e.T == "recv" && e.Env != nil && e.Env["state"] == "established" {
+		if (e.T == "recv" && e.Env != nil && e.Env["state"] == "established") || (e.T == "state" && e.To == "established" && e.SessionID == tr.SessionID && tr.SessionID != "") {
 			estSeen = true
 		}
 		if e.T == "handler" && !estSeen {
@@ -669,6 +669,9 @@ func Classify(tr *Trace) *Verdict {
 			stage = "END"
 		}
 		if expectClose && !expectFail {
+			if !s.closed && si.kind == "data" {
+				v.issue("C06", "C06/data-did-not-abort-handshake", "a %s envelope injected at stage %s did not abort the handshake: the server keeps the connection open (answered %v)", sym, stage, envs(s.recv))
+			}
 			if !s.closed && si.kind != "disconnect" {
 				v.issue("C14", "C14/not-closed/"+strings.Split(strings.Split(label, "@")[0], "(")[0], "after client step %q (%s, stage %s) the server left the connection open and unserved", sym, label, stage)
 			}
@@ -715,7 +718,7 @@ func Classify(tr *Trace) *Verdict {
 			}
 			continue
 		}
-		isEst := (e.T == "recv" && e.Env != nil && e.Env["state"] == "established") || (e.T == "state" && e.To == "established")
+		isEst := (e.T == "recv" && e.Env != nil && e.Env["state"] == "established") || (e.T == "state" && e.To == "established" && e.SessionID == tr.SessionID && tr.SessionID != "")
 		if !isEst {
 			continue
 		}
